@@ -44,8 +44,10 @@ Definition parse_nat (s : wbytes) : option (Z * wbytes) :=
 
 Definition parse_int (s : wbytes) : option (Z * wbytes) :=
   match s with
-  | 45 :: r => match parse_nat r with Some (v, r') => Some (- v, r') | None => None end
-  | _ => parse_nat s
+  | c :: r =>
+      if c =? 45 then match parse_nat r with Some (v, r') => Some (- v, r') | None => None end
+      else parse_nat s
+  | [] => None
   end.
 
 (* ---- JSON strings ------------------------------------------------------------ *)
@@ -70,14 +72,16 @@ Definition esc1 (b : Z) : wbytes :=
   else if (b <? 32) || (b =? 60) || (b =? 62) || (b =? 38) then u00 b
   else [b].
 
-(* U+2028 / U+2029 (E2 80 A8 / E2 80 A9) are written as   /   *)
+(* U+2028 / U+2029 (E2 80 A8 / E2 80 A9) are written as \u2028 / \u2029 *)
+Definition is_ls (a b c : Z) : bool := (a =? 226) && (b =? 128) && ((c =? 168) || (c =? 169)).
+
 Fixpoint esc (s : wbytes) : wbytes :=
   match s with
   | [] => []
   | a :: t =>
       match t with
       | b :: c :: r =>
-          if (a =? 226) && (b =? 128) && ((c =? 168) || (c =? 169))
+          if is_ls a b c
           then [92; 117; 50; 48; 50; hexd (c - 160)] ++ esc r
           else esc1 a ++ esc t
       | _ => esc1 a ++ esc t
@@ -300,10 +304,11 @@ Definition part_len (d : desc) : nat := Z.to_nat (d_end d - d_beg d).
    end-of-part-or-stream signalled) *)
 Definition pd_read (total pos : nat) (stream : wbytes) (req grant : nat)
   : wbytes * nat * wbytes * bool :=
-  let left := Nat.min (total - pos) req in
-  let k := Nat.min left (Nat.min grant (length stream)) in
+  let want := Nat.min (Nat.min (total - pos) req) grant in
+  let got := firstn want stream in
+  let k := length got in
   let pos' := (pos + k)%nat in
-  (firstn k stream, pos', skipn k stream,
+  (got, pos', skipn k stream,
    (pos' =? total)%nat || (match stream with [] => true | _ => false end)).
 
 (* the consumer (io.Copy in Stage.Receive): read until the part reader signals the end.
@@ -351,7 +356,7 @@ Fixpoint split_spec (ds : list desc) (stream : wbytes) : list (desc * wbytes * b
 
 (* the sender's side: Encoder.Read with a buffer of req bytes walks the parts in
    order; the concatenation of what it returns *)
-Fixpoint encode_body (bodies : list wbytes) : wbytes := concat bodies.
+Definition encode_body (bodies : list wbytes) : wbytes := concat bodies.
 
 (* domain predicates *)
 Definition byte_ok (c : Z) : bool := (0 <=? c) && (c <? 256).
